@@ -99,7 +99,7 @@ def abstract_cell(w, name, mask=0, type_=-1, nbits=None, nrefs=0):
     return c
 
 
-def abstract_child(w, name, kind='plain', mask=0):
+def abstract_child(w, name, kind='plain', mask=0, stored=None):
     """abstract child cell + its specification-side observation (vf.spec.cell.Obs).
     kind 'plain': any non-pruned cell with level mask `mask` (popcount(mask)+1 symbolic hashes/depths);
     kind 'pruned': a pruned-branch cell of mask `mask` >= 1 whose data carries symbolic stored hashes/depths."""
@@ -115,6 +115,8 @@ def abstract_child(w, name, kind='plain', mask=0):
     data = E.lit('00000001') + E.uint(mask, 8)
     stored_h = [w.bytes(f'{name}.stored_hash{i}', 32) for i in range(k)]
     stored_d = [w.int(f'{name}.stored_depth{i}', 0, 65535) for i in range(k)]
+    for i, (h, d) in (stored or {}).items():        # stored slot i carries a given hash/depth (e.g. of a removed subtree)
+        stored_h[i], stored_d[i] = h, d
     for h in stored_h:
         data = data + w.bytes_seq(h)
     for d in stored_d:
